@@ -18,11 +18,10 @@ def main():
         if old not in text:
             print("PATTERN NOT FOUND:", old); sys.exit(3)
         ov[rel] = text.replace(old, new, 1)
-    try:
-        rep, ctx = run_property(pid, "quick", root, ov)
-    except AnalysisError as e:
-        print("ANALYSIS-ERROR", e); sys.exit(2)
+    rep, ctx, err = run_property(pid, "quick", root, ov)
     kn, new = R.classify(rep, R.load_known())
+    if err and not new:
+        print("ANALYSIS-ERROR", err); sys.exit(2)
     print("%d obligations, %d failed (%d known)" % (len(rep.obs), len(rep.failed()), len(kn)))
     for o in new:
         print(" FAIL", o.rule, "|", o.key, "|", o.msg[:200], "|", o.loc)
